@@ -2,6 +2,8 @@ import Scion.Model.Net
 import Scion.Proofs.Net
 import Scion.Proofs.NetSteps
 import Scion.Proofs.NetEdge
+import Scion.Proofs.NetSpecEdge
+import Scion.Proofs.NetPeerEdge
 /-!
 # C02 — Paths built from beacons are accepted hop by hop and reach the destination
 
@@ -83,11 +85,77 @@ theorem xover_accepted_partial (mac : MacFn) (net : Net) (now : Nat)
     ∃ cf, send mac net now src dst c = .delivered dst (pathIfaces [eu, ed]) cf :=
   xover_up_down mac net now src dst hWF hUp hSR eu ed c hud huc hup hdd hdc hdp hJ hp hexp
 
-/-- What is still open (stated by `C02_full`, tied by the engine, not proved): segment changes
-    involving a core segment (up+core, core+down, up+core+down — the run lemmas `run_transits`,
-    `xover_step`, `down_tail_run`, `up_tail_run` are already generic in the segments before and
-    after, the glue for two and three edges is missing), stage 3 `peering_accepted` (the peering hop step
-    is not written), and several border routers per AS. -/
+/-- **Stage 2 in general: every path without peering**, any admissible combination of segments
+    (up, core, down, up+core, up+down, core+down, up+core+down, and the mirror images that occur
+    as reversed paths), whole or cut at shortcut ASes; one border router per AS.  By induction
+    over the list of segments (`tail_run`): along a segment the transit induction, at a joint AS
+    the cross-over step, which validates the last hop of the old and the first hop of the new
+    segment and the link-type pair. -/
+theorem nonpeering_accepted_partial (mac : MacFn) (net : Net) (now : Nat)
+    (hWF : WFNet net) (hUp : AllUp net) (hSR : SingleRouter net)
+    (edges : List Edge) (src dst : Nat) (c : Cursor) (hnp : ∀ e ∈ edges, e.peer = none)
+    (hJ : Joinable mac net edges src dst) (hp : pathOf edges = some c) (hexp : Unexpired now c) :
+    ∃ cf, send mac net now src dst c = .delivered dst (pathIfaces edges) cf := by
+  obtain ⟨s, rest, _, _, _, _, _, _, h⟩ := nonpeer_accepted mac net now src dst hWF hUp hSR edges c hnp hJ hp hexp
+  exact ⟨_, h⟩
+
+/-- **Stage 3: peering paths** — an up segment ending in a peer entry, the peering link, a down
+    segment starting with the matching peer entry (each side one or more ASes); one border router
+    per AS.  The peering hops are validated with the accumulator of the *next* hop in construction
+    order and leave the SegID untouched (C22). -/
+theorem peering_accepted_partial (mac : MacFn) (net : Net) (now : Nat)
+    (hWF : WFNet net) (hUp : AllUp net) (hSR : SingleRouter net)
+    (eu ed : Edge) (src dst : Nat) (c : Cursor) (ku kd : Nat)
+    (hup : eu.peer = some ku) (hdp : ed.peer = some kd)
+    (hJ : Joinable mac net [eu, ed] src dst) (hp : pathOf [eu, ed] = some c)
+    (hexp : Unexpired now c) :
+    ∃ cf, send mac net now src dst c = .delivered dst (pathIfaces [eu, ed]) cf :=
+  peering_accepted mac net now src dst hWF hUp hSR eu ed c ku kd hup hdp hJ hp hexp
+
+/-- **C02 for networks with one border router per AS**: `C02_full` with the additional hypothesis
+    `SingleRouter` — every path path combination can build (all segment combinations, shortcuts,
+    peering shortcuts) is forwarded by every AS on it through exactly the interfaces of the path
+    metadata and delivered in the destination AS. -/
+theorem C02_single_router_partial (mac : MacFn) (net : Net) (now : Nat) (edges : List Edge)
+    (src dst : Nat) (c : Cursor)
+    (hWF : WFNet net) (hUp : AllUp net) (hSR : SingleRouter net)
+    (hJ : Joinable mac net edges src dst) (hp : pathOf edges = some c) (hexp : Unexpired now c) :
+    ∃ cf, send mac net now src dst c = .delivered dst (pathIfaces edges) cf := by
+  by_cases hnp : ∀ e ∈ edges, e.peer = none
+  · exact nonpeering_accepted_partial mac net now hWF hUp hSR edges src dst c hnp hJ hp hexp
+  · -- some edge peers: then there are exactly two edges and both peer
+    have hJ' := hJ
+    obtain ⟨_, _, _, hjoints, hpl, _, _, _⟩ := hJ'
+    have hex : ∃ e ∈ edges, e.peer.isSome = true := by
+      apply Classical.byContradiction
+      intro hno
+      apply hnp
+      intro e he
+      cases hpe : e.peer with
+      | none => rfl
+      | some k => exact absurd ⟨e, he, by simp [hpe]⟩ hno
+    obtain ⟨e, he, hpe⟩ := hex
+    have hlen := hpl e he hpe
+    match edges, hlen with
+    | [e1, e2], _ =>
+      have hj := hjoints.1
+      cases h1 : e1.peer with
+      | none =>
+        cases h2 : e2.peer with
+        | none =>
+          simp only [List.mem_cons, List.not_mem_nil, or_false] at he
+          rcases he with rfl | rfl
+          · simp [h1] at hpe
+          · simp [h2] at hpe
+        | some k2 => simp [Joint, h1, h2] at hj
+      | some k1 =>
+        cases h2 : e2.peer with
+        | none => simp [Joint, h1, h2] at hj
+        | some k2 =>
+          exact peering_accepted_partial mac net now hWF hUp hSR e1 e2 src dst c k1 k2 h1 h2 hJ hp hexp
+
+/-- What is still open: several border routers per AS (sibling hand-over); `C02_full` is the
+    statement without `SingleRouter`. -/
 def remaining_stages : Prop := C02_full
 
 /-! Non-vacuity: a two-AS network (core 1 with child 2), the beacon 1→2 with the identity-like MAC
@@ -114,6 +182,8 @@ example : exDelivered = true := by decide +kernel
     child interface 5, terminated by AS 2) -/
 example : Registered exMac exNet false exSeg :=
   Registered.terminate _ 2 9 63 []
-    (Beaconed.originate 1 77 1000 63 5 [] ⟨5, .child, true, 0, 2, 9⟩ (by decide) rfl (by decide))
+    (Beaconed.originate 1 77 1000 63 5 [] ⟨5, .child, true, 0, 2, 9⟩ (by decide) rfl (by decide)
+      (by intro p hp; cases hp))
+    (by intro p hp; cases hp)
 
 end Scion.C02
